@@ -505,6 +505,41 @@ def delegates_to(F, fn, other):
     return det
 
 
+def staged_list(fn, ex, paths, push_rx):
+    """A loop split in two (loop fission): the first loop pushes intermediate values into a local list, a second loop walks
+    that list and does the real work.  Returns dict(lists=[names of the local lists pushed to by calls matching push_rx],
+    pushes=[(path, pushed value)], walkers={bb of the `next` call of a loop that walks such a list plainly: list name},
+    mutations=[other mutating calls on such a list])."""
+    pushes = [(q, e) for q in paths for e in q.events if e[0] == "call" and re.search(push_rx, e[2])]
+    lists = set()
+    locs = set()
+    for q, e in pushes:
+        r0 = e[3][0]
+        if r0[0] == "ref" and r0[1][1][0] == "local":
+            lists.add(fn.names().get(r0[1][1][2], "_%d" % r0[1][1][2]))
+            locs.add(r0[1][1][2])
+    walkers = {}
+    pv = M.Prov(fn)
+    for bb, t in fn.calls(r"iter::Iterator>::next$"):
+        if not t["args"]:
+            continue
+        e_ = pv.operand(t["args"][0])
+        calls_ = M.expr_calls(e_)
+        # (walked plainly: no adaptor, slicing or draining between the list and the loop)
+        plain = bool(calls_) and not any(re.search(r"iter::Iterator>::(?!next$)|::(drain|split\w*|chunks\w*|windows|get|get_mut|index|index_mut|iter_mut)(::<.*>)?$", c_[1]) for c_ in calls_)
+        if plain:
+            for n_ in M.expr_leaf_names(e_):
+                if n_ in lists:
+                    walkers[bb] = n_
+    muts = []
+    for bb, t in fn.calls(r"Vec::<.*>::(sort\w*|dedup\w*|retain|remove|swap_remove|truncate|pop|drain|clear|reverse|insert|swap)$"):
+        a0 = t["args"][0] if t["args"] else None
+        if a0 and a0.get("k") in ("copy", "move"):
+            if set(M.expr_leaf_names(pv.operand(a0))) & lists:
+                muts.append(M.short_name(M.call_name(t)))
+    return {"lists": sorted(lists), "pushes": [(q, e[3][1]) for q, e in pushes], "walkers": walkers, "mutations": muts}
+
+
 def char_tests(conds):
     """[(tested term, char, is_equal)] for `x == 'c'`, `'c' == x`, `x != 'c'` and `match x { 'c' => .. }` (a switch on the
     char value), with the outcome each path assumed."""
